@@ -296,7 +296,7 @@ var StructTypes = []reflect.Type{
 	T(CN1{}), T(CN2{}), T(NMapHolder{}),
 	T(ManyF{}), T(ManyL{}),
 	T(Node{}), T(FNode{}), T(Ping{}), T(Pong{}), T(ENode{}), T(DeepNil{}),
-	T(MapAndLists{}), T(Wrap{}), T(WrapList{}), T(PtrTime{}), T(Named{}), T(SelfAny{}), T(SelfAnyList{}), T(PtrConts{}), T(MutA{}), T(MutB{}), T(MpKeyStruct{}), T(MutGraph{}), T(NonASCII{}), T(RecConts{}), T(AmpTop{}), T(AmpN{}), T(FloatMix{}), T(Forest{}), T(CaseTwins{}), T(Bags{}), T(PtrNamed{}), T(NonASCIIFirst{}), T(IntMix{}), T(Empty{}), T(NumMaps{}), T(BaseEnt{}), T(PlainEnt{}), T(AccountEnt{}), T(PtrBaseEnt{}), T(Ents{}), T(NamedLists{}), T(StrMix{}), T(TimeMix{}), T(Color{}), T(Pair{}), T(Envelope{}),
+	T(MapAndLists{}), T(Wrap{}), T(WrapList{}), T(PtrTime{}), T(Named{}), T(SelfAny{}), T(SelfAnyList{}), T(PtrConts{}), T(MutA{}), T(MutB{}), T(MpKeyStruct{}), T(MutGraph{}), T(NonASCII{}), T(RecConts{}), T(AmpTop{}), T(AmpN{}), T(FloatMix{}), T(Forest{}), T(CaseTwins{}), T(Bags{}), T(PtrNamed{}), T(NonASCIIFirst{}), T(IntMix{}), T(Empty{}), T(NumMaps{}), T(BaseEnt{}), T(PlainEnt{}), T(AccountEnt{}), T(PtrBaseEnt{}), T(Ents{}), T(NamedLists{}), T(StrMix{}), T(TimeMix{}), T(Color{}), T(Pair{}), T(Envelope{}), T(Empty2{}), T(Markers{}), T(UserID{}), T(UserId{}), T(CaseClasses{}), T(Block{}), T(Coded{}),
 }
 
 // TypeByName finds a zoo struct type.
@@ -760,6 +760,50 @@ type Pair struct {
 	Args, Extras  []interface{}
 	Req, Resp     Envelope
 	First, Second map[string]interface{}
+}
+
+// Empty2 / Markers: two struct types without content (all their values sit at one address without being one object).
+type Empty2 struct{}
+
+type Markers struct {
+	A *Empty
+	B *Empty2
+	C Empty
+	D Empty2
+	L []interface{}
+	N int32
+}
+
+// UserID / UserId: two classes whose names differ only in case.
+type UserID struct{ A int32 }
+type UserId struct{ B string }
+
+type CaseClasses struct {
+	A *UserID
+	B *UserId
+	C []UserId
+	D []UserID
+}
+
+// Block: octets of named types (lists of integers on the wire) in front of shared pointers.
+type Block struct {
+	Hash   Digest
+	Perms  []Perm
+	Parent *Block
+	Uncle  *Block
+	Kids   []*Block
+	N      int32
+}
+
+// Code / Coded: maps keyed by named integer types, of both widths, in struct fields.
+type Code int64
+
+type Coded struct {
+	ByStatus map[Status]string
+	ByCode   map[Code]string
+	ByID     map[BigID]int32
+	U        uint64
+	V        uint
 }
 
 // Color: the shape of a Java enum constant on the wire (one field, "name").
